@@ -431,6 +431,10 @@ func checkFlattenOne(prop, tier string, seed int64) int {
 	}
 	rep.Extra["tlc_wall_s"] = fc.tlc.WallS
 	rep.Extra["runs"] = len(fc.runs)
+	if prop == "C01" || prop == "C04" {
+		// the mechanism both rest on: rebasing of the $refs of an imported schema (function-level conformance with Paths.tla)
+		runPathsComponent(rep, tier)
+	}
 	return rep.Finish()
 }
 
